@@ -273,6 +273,41 @@ NA = {
            "held-out fold leaked); anything larger is Monte-Carlo sampling, a different family (DESIGN.md section 6). "
            "Its mechanisms are decided by C01, C02, C03, C11.",
 }
+# families added after seeded wave 6 (appended to the level texts)
+_WAVE6 = {
+    "C01": "One vector with counts beyond 2**24 (16.8M targets, 1M decoys, 1M targets; thorough: both directions and a decoy-heavy "
+           "one) is compared with the closed form of the formula (int64 counts, float64 division).",
+    "C02": "A history deviation brews shallow copies of the same dataset objects beforehand with other fold counts.",
+    "C05": "Runs with a binding subset_max_train (capped random training subset) are repeated under every training-read chunk size.",
+    "C06": "Input orders include label-dependent ones (targets ranked then decoys ranked, the reverse, alternating ranked runs).",
+    "C07": "A multi-collection run whose learner cannot learn (fallback taken) is explored under the baton scheduler: every schedule "
+           "of every pool invocation inside brew with <=1 (quick) / <=2 (thorough) preemptions must hand each collection its own "
+           "best-feature values, and free-running joblib must land in that outcome set.",
+    "C08": "The worker-count / thread-timing clause is also decided by E2: every schedule of every pool invocation of a seeded "
+           "3-worker analysis with <=1 (quick) / <=2 (thorough) preemptions must reproduce the sequential digest, including the "
+           "order in which each fit call received its rows (which follows the model's random generator).",
+    "C11": "A same-path history (another export analysed under the same paths earlier in the process) must neither change the map "
+           "nor turn a calibratable analysis into an explicit error (differential against the analysis alone).",
+    "C12": "A two-level learner ties targets with decoys at the training-FDR boundary (tie groups accepted or rejected as a whole); "
+           "fit calls that precede a refusal are judged too.",
+    "C13": "Parquet sources also come with unequal row groups: every composition of <=5/6 rows into >=2 groups.",
+    "C14": "Inputs are also laid out under one file name in different directories.",
+    "C15": "The end-to-end family is repeated with confidence chunk sizes 1..3 (peptide table streamed in several chunks).",
+    "C19": "A second family places a blank or an exotic separator character (\\x0b \\x0c \\x1c-\\x1e \\x85 U+2028 U+2029) inside fields.",
+    "C20": "Runs of one file are also listed in non-lexical order of their data-file names.",
+}
+for _p, _t in _WAVE6.items():
+    CHECKS[_p]["text"] += " " + _t
+CHECKS["C07"]["engine"] = "E1-enum + E2-sched"
+CHECKS["C07"]["technique"] += "; stateless preemption-bounded schedule exploration (CHESS-style) of brew's pool invocations for a multi-collection fallback run"
+CHECKS["C08"]["engine"] = "E1-enum + E2-sched"
+CHECKS["C08"]["technique"] += "; stateless preemption-bounded schedule exploration of the pool invocations of a seeded multi-worker analysis"
+CHECKS["C19"]["note"] = "Fields are non-empty and free of tab / CR / LF; other whitespace only inside fields, never at a line end."
+CHECKS["C01"]["note"] = CHECKS["C01"]["note"].replace("lengths above the bound", "lengths above the bound (except the one designed large-count vector)")
+for _e in ENGINES:
+    if _e["name"] == "E2-sched":
+        _e["serves_properties"] += [p for p in ("C07", "C08") if p not in _e["serves_properties"]]
+
 for _p in ["C02", "C03", "C05", "C06", "C07", "C08", "C09", "C10", "C11", "C12", "C13", "C14", "C15", "C16", "C17",
            "C18", "C19", "C20"]:
     NA.setdefault(_p, _NOTYET)
